@@ -12,6 +12,7 @@ pub mod c16;
 pub mod c17;
 pub mod c18;
 pub mod families;
+pub mod sanit;
 
 use crate::util::Report;
 
@@ -39,6 +40,24 @@ pub fn run(id: &str, tier: &str, seed: u64) -> i32 {
         _ => {
             println!("unknown property id {id}");
             return 2;
+        }
+    }
+    // sanitizer slice for the properties that lean on `unsafe` code
+    let n = if r.quick() { 40 } else { 600 };
+    match id {
+        "C07" => sanit::attach(&mut r, "threads", n),
+        "C12" => sanit::attach(&mut r, "failing", n),
+        "C14" => sanit::attach(&mut r, "abandon", n),
+        "C16" => sanit::attach(&mut r, "codec", n),
+        _ => {}
+    }
+    if !r.quick() {
+        match id {
+            "C07" => sanit::attach_asan(&mut r, "vcore", "verif", "threads", 4000),
+            "C12" => sanit::attach_asan(&mut r, "vcore", "verif", "failing", 2000),
+            "C14" => sanit::attach_asan(&mut r, "vcore", "verif", "abandon", 4000),
+            "C16" => sanit::attach_asan(&mut r, "vcore", "verif", "codec", 4000),
+            _ => {}
         }
     }
     r.finish()
